@@ -42,6 +42,7 @@ var registry = map[string]runner{
 	"C15/random":       w15.Random,
 	"C15/schema":       w15.Schema,
 	"C20/enum":         w20.Enum,
+	"C20/large":        w20.Large,
 	"C13/revisions":    w13.Revisions,
 	"C13/files":        w13.Files,
 	"C13/split":        w13.Split,
